@@ -219,7 +219,7 @@ def main():
         broken.append(f"audit: no theorem named {prop}_* was checked (lean/SaoVerif/Properties/{prop}.lean missing or not imported)")
     # runs
     known = [k for k in load_known() if k.get("property") == prop]
-    hits, mism, steps_total, compared, opcount, rescount = [], [], 0, 0, {}, {}
+    hits, mism, steps_total, compared, opcount, rescount, errkinds = [], [], 0, 0, {}, {}, {}
     runs = []
     samples = []
     if not any(k in ("harness-build",) for k, _ in fails) and os.path.exists(ctx.model if hasattr(ctx, "model") else "/nonexistent"):
@@ -269,6 +269,9 @@ def main():
                     steps_total += 1
                     opcount[kv.get("op", "?")] = opcount.get(kv.get("op", "?"), 0) + 1
                     rescount[kv.get("op", "?") + ":" + kv.get("res", "?")] = rescount.get(kv.get("op", "?") + ":" + kv.get("res", "?"), 0) + 1
+                    if kv.get("res") != "ok":
+                        ek = kv.get("op", "?") + ":" + kv.get("res", "?") + ":" + kv.get("kind", "")
+                        errkinds[ek] = errkinds.get(ek, 0) + 1
                     if len(samples) < 3 and kv.get("op") not in ("advance", "begin", "end"):
                         samples.append({"trace": os.path.basename(tr), "hist": kv.get("hist"), "i": kv.get("i"), "op": kv.get("op"), "res": kv.get("res")})
                 elif kind == "MISMATCH":
@@ -340,7 +343,7 @@ def main():
                              "Lean compiler for saomodel (correspondence/monitors only)"],
             "theorems": my_thms,
             "correspondence": {"runs": runs, "steps": steps_total, "compared_steps": compared, "footprint_ops": sorted(ops), "footprint_fields": sorted(fields),
-                               "mismatches_in_footprint": len(mism), "op_histogram": opcount, "op_result_histogram": rescount},
+                               "mismatches_in_footprint": len(mism), "op_histogram": opcount, "op_result_histogram": rescount, "error_kinds_hit": dict(sorted(errkinds.items()))},
             "traces_validated_against_impl": compared,
             "monitor_hits": len(hits), "hits_after_known_finding_in_same_history": ntainted, "known_findings_reproduced": sorted(reproduced.keys()),
             "evaluations": steps_total, "samples": samples or [{"note": "no runs"}],
